@@ -1,4 +1,5 @@
 import NauyacaVerif.Fs.UploadProof
+import NauyacaVerif.Fs.UploadTree
 
 /-! # C14  Titan uploads change only the authorised target, exactly as sent
 
@@ -36,17 +37,18 @@ def Allowed (c : UCfg) (t : Path) (e : Effect) : Prop :=
     upload directory -/
 theorem upload_effects (os : UOS) (c : UCfg) (f : Faults) (r : UReq) :
     ∀ e ∈ (handleUpload os c f r).2,
-      ∃ t, os.resolve (c.dir ++ r.comps) = some t ∧ inside c.dir t = true ∧ Allowed c t e := by
+      ∃ t, os.resolve (c.dir ++ r.comps) = some t ∧ os.realpath t = some t ∧ inside c.dir t = true ∧ Allowed c t e := by
   intro e he
-  rcases handleUpload_cases os c f r with ⟨h, _⟩ | ⟨t, _, _, _, hres, heq⟩ | ⟨t, _, _, hres, hin, hne, heq⟩
+  rcases handleUpload_cases os c f r with ⟨h, _⟩ | ⟨t, _, _, _, hres, heq⟩ | ⟨t, _, _, hres, hsafe, hne, heq⟩
   · rw [h] at he; simp at he
   · rw [heq] at he
-    rcases deleteAt_cases os c f t with ⟨h, _⟩ | ⟨hin, _, h | h⟩
+    rcases deleteAt_cases os c f t with ⟨h, _⟩ | ⟨hsafe, _, h | h⟩
     · rw [h] at he; simp at he
-    · rw [h] at he; simp at he; exact ⟨t, hres, hin, Or.inl ⟨true, he⟩⟩
-    · rw [h] at he; simp at he; exact ⟨t, hres, hin, Or.inl ⟨false, he⟩⟩
+    · rw [h] at he; simp at he; exact ⟨t, hres, safePath_fix hsafe, safePath_inside hsafe, Or.inl ⟨true, he⟩⟩
+    · rw [h] at he; simp at he; exact ⟨t, hres, safePath_fix hsafe, safePath_inside hsafe, Or.inl ⟨false, he⟩⟩
   · rw [heq] at he
-    refine ⟨t, hres, hin, Or.inr ⟨hne, ?_⟩⟩
+    have hin := safePath_inside hsafe
+    refine ⟨t, hres, safePath_fix hsafe, hin, Or.inr ⟨hne, ?_⟩⟩
     have hpath : ∀ p ∈ (mkParents os c f t).2, ∃ q, p = c.dir ++ q ∧ q ≠ [] ∧ c.dir ++ q <+: t.dropLast := by
       intro p hp
       obtain ⟨q, rfl, hq1, hq2⟩ := mkdirWalk_shape os.toOS c f _ _ _ p hp
@@ -97,21 +99,34 @@ theorem upload_effects (os : UOS) (c : UCfg) (f : Faults) (r : UReq) :
       · exact Or.inr (Or.inl ⟨_, _, rfl⟩)
       · exact Or.inr (Or.inr (Or.inl ⟨_, rfl⟩))
 
-/-- under the OS contract "`resolve` is idempotent" the target is its own resolution: no symlink is
-    left on the way to it -/
+/-- the target is a fixpoint of `realpath` because the handler CHECKS it (`_is_safe_path`), not
+    because `resolve` is assumed to return fully resolved paths: whatever `Path.resolve()` returns,
+    nothing is touched unless `os.path.realpath` maps the target to itself -/
 theorem upload_target_canonical (os : UOS) (c : UCfg) (f : Faults) (r : UReq)
-    (hidem : ∀ p q, os.resolve p = some q → os.resolve q = some q)
     (e : Effect) (he : e ∈ (handleUpload os c f r).2) :
-    ∃ t, os.resolve t = some t ∧ inside c.dir t = true ∧ Allowed c t e := by
-  obtain ⟨t, h1, h2, h3⟩ := upload_effects os c f r e he
-  exact ⟨t, hidem _ _ h1, h2, h3⟩
+    ∃ t, os.realpath t = some t ∧ inside c.dir t = true ∧ Allowed c t e := by
+  obtain ⟨t, _, h1, h2, h3⟩ := upload_effects os c f r e he
+  exact ⟨t, h1, h2, h3⟩
+
+/-- in the symlink-tree instance the checked fixpoint means what it should: the target of every
+    effect has no symlink among its prefixes, and the kernel-style walk of it ends at the target
+    itself — the write cannot be led elsewhere.  (Side condition: `realpath` met no loop on the
+    target; if it did, the kernel walk of the target fails with ELOOP and nothing is reachable.) -/
+theorem tree_target_resolved (tr : Tree) (c : UCfg) (f : Faults) (r : UReq)
+    (e : Effect) (he : e ∈ (handleUpload (treeUOS tr) c f r).2) :
+    ∃ t, inside c.dir t = true ∧ Allowed c t e ∧
+      ((realpath tr t).2 = true → LinkFree tr t ∧ ∀ q n, kstat tr t = some (q, n) → q = t) := by
+  obtain ⟨t, h1, h2, h3⟩ := upload_target_canonical (treeUOS tr) c f r e he
+  refine ⟨t, h2, h3, fun hok => ?_⟩
+  have hlf := treeUOS_fix_linkFree tr t h1 hok
+  exact ⟨hlf, fun q n hk => (kstat_linkFree tr t q n hlf hk).1⟩
 
 /-- every path any effect touches lies inside the upload directory (component-wise prefix: a
     sibling such as `uploads-evil` is outside) -/
 theorem upload_confined (os : UOS) (c : UCfg) (f : Faults) (r : UReq) :
     ∀ e ∈ (handleUpload os c f r).2, ∀ p ∈ e.paths, inside c.dir p = true := by
   intro e he p hp
-  obtain ⟨t, _, hin, ha⟩ := upload_effects os c f r e he
+  obtain ⟨t, _, _, hin, ha⟩ := upload_effects os c f r e he
   rcases ha with ⟨ok, rfl⟩ | ⟨hne, ha⟩
   · simp [Effect.paths] at hp; subst hp; exact hin
   · have htp := inside_tempPath hin hne
@@ -245,13 +260,13 @@ theorem nonsuccess_no_dirs (os : UOS) (c : UCfg) (f : Faults) (r : UReq)
     path holds what it held before -/
 theorem success_upload (os : UOS) (c : UCfg) (f : Faults) (r : UReq) (fs : Files)
     (hc : Consistent os fs) (hok : (handleUpload os c f r).1 = .s20) (hsz : r.size ≠ 0) :
-    ∃ t, os.resolve (c.dir ++ r.comps) = some t ∧ inside c.dir t = true ∧ t ≠ c.dir ∧
+    ∃ t, os.resolve (c.dir ++ r.comps) = some t ∧ os.realpath t = some t ∧ inside c.dir t = true ∧ t ≠ c.dir ∧
       (applyAll fs (handleUpload os c f r).2).get t = some (r.content.take r.size) ∧
       ∀ p, p ≠ t → (applyAll fs (handleUpload os c f r).2).get p = fs.get p := by
-  rcases handleUpload_cases os c f r with ⟨_, h0⟩ | ⟨t, _, hz, _, _, _⟩ | ⟨t, _, _, hres, hin, hne, heq⟩
+  rcases handleUpload_cases os c f r with ⟨_, h0⟩ | ⟨t, _, hz, _, _, _⟩ | ⟨t, _, _, hres, hsafe, hne, heq⟩
   · exact absurd hok h0
   · exact absurd hz hsz
-  · refine ⟨t, hres, hin, hne, ?_⟩
+  · refine ⟨t, hres, safePath_fix hsafe, safePath_inside hsafe, hne, ?_⟩
     rw [heq] at hok ⊢
     have hmk := made_dirOps os c f t
     rcases store_cases os c f t (r.content.take r.size) with h0 | h0 | ⟨k, h0, _⟩ | ⟨h0, _⟩ | ⟨h0, hl⟩
@@ -272,15 +287,15 @@ theorem success_upload (os : UOS) (c : UCfg) (f : Faults) (r : UReq) (fs : Files
     gone and every other path holds what it held before -/
 theorem success_delete (os : UOS) (c : UCfg) (f : Faults) (r : UReq) (fs : Files)
     (hok : (handleUpload os c f r).1 = .s20) (hsz : r.size = 0) :
-    ∃ t, os.resolve (c.dir ++ r.comps) = some t ∧ inside c.dir t = true ∧ os.kind t ≠ .missing ∧
+    ∃ t, os.resolve (c.dir ++ r.comps) = some t ∧ os.realpath t = some t ∧ inside c.dir t = true ∧ os.kind t ≠ .missing ∧
       (applyAll fs (handleUpload os c f r).2).get t = none ∧
       ∀ p, p ≠ t → (applyAll fs (handleUpload os c f r).2).get p = fs.get p := by
   rcases handleUpload_cases os c f r with ⟨_, h0⟩ | ⟨t, _, _, _, hres, heq⟩ | ⟨t, _, hnz, _, _, _, _⟩
   · exact absurd hok h0
   · rw [heq] at hok ⊢
-    rcases deleteAt_cases os c f t with ⟨_, h0⟩ | ⟨hin, hk, h0 | h0⟩
+    rcases deleteAt_cases os c f t with ⟨_, h0⟩ | ⟨hsafe, hk, h0 | h0⟩
     · exact absurd hok h0
-    · refine ⟨t, hres, hin, hk, ?_⟩
+    · refine ⟨t, hres, safePath_fix hsafe, safePath_inside hsafe, hk, ?_⟩
       rw [h0]
       simp only [applyAll, List.foldl_cons, List.foldl_nil, applyEffect, if_true]
       exact ⟨get_del_self _ _, fun p hp => get_del_other _ _ _ hp⟩
@@ -307,6 +322,7 @@ def os0 : UOS where
   size := fun _ => 0
   readText := fun _ => .ioError
   listing := fun _ => none
+  realpath := fun p => if p = ["uploads", "pseudo"] then some ["etc"] else some p
   lexists := fun p => p = ["uploads"] ∨ p = ["uploads", "d"] ∨ p = ["uploads", "a"] ∨ p = ["uploads", "out"] ∨
     p = ["uploads", "taken"] ∨ p = ["uploads", "taken", ".7.upload"]
 def req (comps : List Name) (size : Nat) (tok : Option String) : UReq :=
@@ -337,6 +353,9 @@ example : handleUpload os0 cfg {} { req ["a"] 3 (some "s3") with mime := "image/
 example : handleUpload os0 cfg {} (req ["a"] 0 (some "s3")) = (.s50, []) := by decide +kernel
 example : handleUpload os0 cfg {} (req ["out", "x"] 3 (some "s3")) = (.s59, []) := by decide +kernel
 example : handleUpload os0 cfg {} (req [] 3 (some "s3")) = (.s59, []) := by decide +kernel
+-- resolve() hands back a path inside the upload directory that realpath does not confirm: refused, upload and delete
+example : handleUpload os0 cfg {} (req ["pseudo"] 3 (some "s3")) = (.s59, []) := by decide +kernel
+example : handleUpload os0 { cfg with enableDelete := true } {} (req ["pseudo"] 0 (some "s3")) = (.s59, []) := by decide +kernel
 example : (handleUpload os0 cfg {} (req ["d"] 3 (some "s3"))).1 = .s40 := by decide +kernel
 example : handleUpload os0 { cfg with enableDelete := true } {} (req ["a"] 0 (some "s3")) = (.s20, [.unlink ["uploads", "a"] true]) := by decide +kernel
 example : inside ["uploads"] ["uploads-evil", "x"] = false := by decide +kernel
